@@ -1,11 +1,28 @@
 # driver/rust2coq.py -- a Rust-subset -> Gallina translator for the LOOP code of the crate's numeric kernels.
 #
 #   part 1: lexer + recursive-descent parser for the subset (fn items inside impl blocks, let / let mut, assignment and
-#           compound assignment, for over ranges (.rev(), ..=), while, if/else, match on Ok/Err, indexing, method calls,
-#           panic!, return / continue, casts, tuples, struct literals, closures in .iter().map(..).collect()).
+#           compound assignment, for over ranges (.rev(), ..=, isize ranges), while, if/else, match on Ok/Err, indexing,
+#           method calls, panic!, return / continue (also from inside loops), the ? operator, casts, tuples, struct
+#           literals, closures in .iter().map(..).collect()).  Function bodies are parsed lazily, so a construct outside
+#           the subset only breaks the functions that contain it.
 #   part 2: Gallina term AST with the two shape-preserving smart constructors (monad right identity, pair eta).
-#   part 3: the translator proper: state-passing style over {A : Arith}; every index read is rd/mget, every write upd/mset,
-#           usize subtraction is usub, `/` on elements is the fallible div, guards are `if c then Panic Guard else ...`.
+#   part 3: the translator proper: state-passing style over {A : Arith}.
+#
+# Semantics the translation commits to (the trusted part; the tables of driver/r2c_table.py name the model functions):
+#   * immutable locals are `let`; every assigned variable (locals, `&mut` parameters, `self` of a `&mut self` method) is
+#     re-bound under its own name; the variables a loop body / the branches of a falling-through `if` assign are threaded
+#     as a tuple, in declaration order (self, parameters, locals);
+#   * `v[i]` / `m[(i,j)]` reads are rd / mget (Panic Index), writes upd / mset; `a - b` on usize is usub (Panic Underflow,
+#     debug profile); `/` on elements is the fallible div of the Arith; `panic!` is Panic Guard; `.unwrap()` Panic Unwrap;
+#     usize / isize `+ *` are unbounded nat / Z (as in the hand-written models); `i as usize` wraps (isize_as_usize);
+#   * evaluation order: operands left to right; `place = e` evaluates e, then the index expressions of the place, then
+#     writes; `place op= e` on element types (a trait call in generic code) reads the place first, then e, then writes;
+#     on primitive (usize) elements e first; `a && b` / `a || b` short-circuit (monadic when b can fail); range bounds and
+#     loop bounds are evaluated once, before the loop; method calls: receiver, then arguments, inner calls first;
+#   * `for` = for_ / for_rev (Base/Panic.v) / for_z (isize range) / for_ret (a `return` inside the loop);
+#     `while` = while_ret with the fuel bound and the out-of-fuel value of the function's table entry;
+#   * `x?` on an Option/Result propagates the value of TRY_ERR (a poison `Panic` where the error has no counterpart in the
+#     model: the equality lemma then has to show the case unreachable).
 #
 # Anything outside the subset raises TieBroken naming the construct -- never a silent approximation.
 import re
